@@ -7,6 +7,8 @@ run_tests='--tests' in args; ids=[a for a in args if not a.startswith('--')]
 tier='thorough' if '--thorough' in args else 'quick'
 def sh(cmd,**k): return subprocess.run(cmd,shell=True,capture_output=True,text=True,**k)
 assert sh('git -C /repo status --porcelain').stdout.strip()=='', "/repo not clean"
+# the evidence files in /verif describe the unchanged tree: keep them, whatever the runs on the changed tree write
+sh('rm -rf /verif/harness/run/evidence-keep && mkdir -p /verif/harness/run && cp -r /verif/evidence /verif/harness/run/evidence-keep')
 r=sh(f'git -C /repo apply {d}/patch.diff'); assert r.returncode==0, r.stderr
 res={"mutant":os.path.basename(d.rstrip('/')),"tier":tier,"checks":{}}
 try:
@@ -23,5 +25,6 @@ try:
         print(f"{i}: {status} ({time.time()-t0:.0f}s)"); [print("   ",x[:300]) for x in detail]
 finally:
     sh('git -C /repo checkout -- .')
+    sh('cp /verif/harness/run/evidence-keep/*.json /verif/evidence/ && rm -rf /verif/harness/run/evidence-keep')
     assert sh('git -C /repo status --porcelain').stdout.strip()=='', "/repo not clean after revert"
 open('/verif/seeded/results.jsonl','a').write(json.dumps(res)+"\n")
